@@ -245,7 +245,7 @@ type c04op struct {
 	b    int
 }
 
-const c04NOps = 78
+const c04NOps = 79
 
 func (c *c04) apply(op c04op, client int) bool {
 	r := c.r
@@ -751,6 +751,20 @@ func (c *c04) apply(op c04op, client int) bool {
 			_, _, _, _, _ = m.IsEmpty(), m.NonEmpty(), m.Contains(op.a), m.String(), st.String()
 			_, _, _ = st.IsEmpty(), st.NonEmpty(), st.SubsetOf(c.setV[c.pickFrom(c.sets, op.sel)])
 			c.addSeq(m.Values().ToSeq(), fmt.Sprintf("m%d.Values", mid), mid, -1)
+
+		case 78:
+			// variadic constructors called with a spread slice: the callee receives the caller's slice itself
+			if sid < 0 {
+				return
+			}
+			R("immutable.Set(h, s...) / immutable.Map(h, tuples...)")
+			c.addSet(immutable.Set(c.h, s...), fmt.Sprintf("v%d.immutable.Set(spread)", sid), sid)
+			ts := make([]fp.Tuple2[int, int], len(s))
+			for i, v := range s {
+				ts[i] = as.Tuple2(v*7%97, i)
+			}
+			c.addOther(fmt.Sprintf("[]Tuple2 built from seq %d, later spread into immutable.Map", sid), func() string { return fmt.Sprint(ts) })
+			c.addMap(immutable.Map(c.h, ts...), fmt.Sprintf("v%d.immutable.Map(spread)", sid), sid)
 
 		// ---- builders kept after Build
 		case 58, 59:
